@@ -511,11 +511,11 @@ impl Prop for C15 {
         let mut v = Vec::new();
         for nc in 1..=4usize {
             for nw in 1..=3usize {
-                for k in 0..tier.pick(12, 120) {
+                for k in 0..tier.pick(60, 600) {
                     v.push(json!({"kind": "scripted", "clients": nc, "workers": nw, "per": 5, "capture": k % 2 == 0,
                                   "seed": mix(seed ^ 0xC15 ^ (k as u64) << 8 ^ (nc * 10 + nw) as u64)}));
                 }
-                for k in 0..tier.pick(4, 40) {
+                for k in 0..tier.pick(20, 200) {
                     v.push(json!({"kind": "chain", "clients": nc, "workers": nw, "per": 6, "capture": k % 2 == 1,
                                   "seed": mix(seed ^ 0x1C15 ^ (k as u64) << 8 ^ (nc * 10 + nw) as u64)}));
                 }
